@@ -183,7 +183,21 @@ def run(ctx: core.Ctx):
         da = xr.DataArray(cube, dims=("time", "y", "x"), coords={"time": t})
         # lag-1 correlation raster given by the user: float64 values around the 0.5 threshold decide the grid
         lcv = np.array([[np.nextafter(0.5, 1), 0.5], [0.50000002, rng.choice([0.9, -0.3, 0.4999999])]])
-        dsl = da.hdc.whit.whitsvc(nodata=nd, lc=xr.DataArray(lcv, dims=("y", "x")), p=p)
+        # the raster is matched to the pixels by dimension NAME: given as (y, x) or (x, y), to a cube in either spatial order
+        lcd = xr.DataArray(lcv, dims=("y", "x"))
+        form = ["yx", "xy", "cube-xy", "yx"][k % 4]
+        try:
+            if form == "xy":
+                dsl = da.hdc.whit.whitsvc(nodata=nd, lc=lcd.transpose("x", "y"), p=p)
+            elif form == "cube-xy":
+                dsl = da.transpose("time", "x", "y").hdc.whit.whitsvc(nodata=nd, lc=lcd, p=p)
+            else:
+                dsl = da.hdc.whit.whitsvc(nodata=nd, lc=lcd, p=p)
+            dsl = dsl.transpose(..., "y", "x")
+        except Exception as e:  # noqa: BLE001
+            ctx.fail("whitsvc(lc=...)", dict(form=form, p=p), repr(e)[:200], "no exception")
+            continue
+        ctx.count("whitsvc lc form " + form)
         for i in range(ny):
             for j in range(nx):
                 yy = cube[:, i, j].astype("float64")
